@@ -9,7 +9,3 @@ func (c *Ctx) execAsm(af *AsmFunc, fn *ssa.Function, args []Value, st *State, si
 	fail("asm not supported yet")
 }
 
-func (c *Ctx) checkVartimeCall(st *State, fn *ssa.Function, args []Value, site ssa.Instruction) {}
-func (c *Ctx) checkIndexLeak(st *State, p Pointer, in ssa.Instruction)                          {}
-func (c *Ctx) checkBranchLeak(st *State, cond *Term, in ssa.Instruction)                        {}
-func (c *Ctx) checkOperandLeak(st *State, t *Term, in ssa.Instruction, what string)             {}
